@@ -113,16 +113,26 @@ func c14RenderWith(r *fw.Rec, ws *writerSpec, w gozxing.Writer, content string, 
 			hints[gozxing.EncodeHintType_MARGIN] = fmt.Sprint(margin) // string form
 		}
 	}
-	bm, err := w.Encode(content, ws.Format, reqW, reqH, hints)
+	var bm *gozxing.BitMatrix
+	var err error
+	via := "Encode"
+	if hints == nil && r.Rng.Bool() {
+		// the hint-less entry point of the Writer interface must give the same image
+		via = "EncodeWithoutHint"
+		bm, err = w.EncodeWithoutHint(content, ws.Format, reqW, reqH)
+		r.Tally("renders_via_EncodeWithoutHint")
+	} else {
+		bm, err = w.Encode(content, ws.Format, reqW, reqH, hints)
+	}
 	r.Evals(1)
-	info := map[string]interface{}{"writer": ws.Name, "content": content, "width": reqW, "height": reqH, "margin": margin}
+	info := map[string]interface{}{"writer": ws.Name, "content": content, "width": reqW, "height": reqH, "margin": margin, "entry_point": via}
 	if err != nil {
-		r.Violation("model-mismatch", "render:"+ws.Name+":error", fmt.Sprintf("%s.Encode(%q, %dx%d, margin %d) failed: %v", ws.Name, content, reqW, reqH, margin, err), info)
+		r.Violation("model-mismatch", "render:"+ws.Name+":error", fmt.Sprintf("%s.%s(%q, %dx%d, margin %d) failed: %v", ws.Name, via, content, reqW, reqH, margin, err), info)
 		return false
 	}
 	outW, outH, s, padX, padY := c14Expect(ws, mod, reqW, reqH, margin)
 	if bm.GetWidth() != outW || bm.GetHeight() != outH {
-		r.Violation("model-mismatch", "render:"+ws.Name+":size", fmt.Sprintf("%s.Encode(%q, %dx%d, margin %d) is %dx%d, closed form %dx%d", ws.Name, content, reqW, reqH, margin, bm.GetWidth(), bm.GetHeight(), outW, outH), info)
+		r.Violation("model-mismatch", "render:"+ws.Name+":size", fmt.Sprintf("%s.%s(%q, %dx%d, margin %d) is %dx%d, closed form %dx%d", ws.Name, via, content, reqW, reqH, margin, bm.GetWidth(), bm.GetHeight(), outW, outH), info)
 		return false
 	}
 	nw, nh := len(mod[0]), len(mod)
@@ -273,6 +283,7 @@ func c14(c *fw.Ctx) {
 	c.Floor("sweeps_completed", 33)
 	c.Floor("renderings_scaled", 1000)
 	c.Floor("renderings_with_margin_hint", 1000)
+	c.Floor("renders_via_EncodeWithoutHint", 500)
 	for i := range allWriters {
 		c.Floor("renderings_equal_"+allWriters[i].Name, 500)
 	}
